@@ -32,6 +32,9 @@ type c06Case struct {
 	Transport string      `json:"transport"`
 	Calls     []c06Call   `json:"calls"`
 	Rules     []*HookRule `json:"rules,omitempty"`
+	// SlowNotify: a notification whose handler keeps running until the end of the case is sent on the same connection
+	// before the cancellations
+	SlowNotify bool `json:"slow_notify,omitempty"`
 }
 
 func runC06(c c06Case) (*Violation, string) {
@@ -61,6 +64,11 @@ func runC06(c c06Case) (*Violation, string) {
 	os := rig.Go(other, "sub", rig.Tok("other-sub"), Plan{N: 4, Pace: true, Linger: false})
 	rig.W.WaitStarted(oc.Tok, 3*time.Second)
 
+	if c.SlowNotify {
+		sn := rig.Go(cl, "notify", rig.Tok("slow-notify"), Plan{Gate: true})
+		rig.W.WaitStarted(sn.Tok, 2*time.Second)
+		defer rig.W.Release(sn.Tok)
+	}
 	type st struct {
 		c06Call
 		tok    string
@@ -273,16 +281,19 @@ func c06NT(c c06Case) (bool, []string) {
 	if len(c.Rules) > 0 {
 		cl = append(cl, "with_delays")
 	}
+	if c.SlowNotify {
+		cl = append(cl, "behind_slow_notification")
+	}
 	return len(c.Calls) >= 2 && nCancel > 0 && nKeep > 0, cl
 }
 
-const c06Rule = "1-6 gated unary calls and 0-3 paced subscriptions on one client (ws; 1/5 of cases http with unary calls only) plus one call and one subscription on a second client that is never touched; every call is assigned none | cancelled-before-issue | cancelled-while-running | cancel-racing-release | cancelled-after-subscription-established; delays at cancel.send / call.dispatch / write.locked. Grid: every strict non-empty subset of 4 calls cancelled, per instant. Non-trivial = >=2 concurrent calls with a strict, non-empty subset cancelled; distinct by descriptor hash"
+const c06Rule = "1-6 gated unary calls and 0-3 paced subscriptions on one client (ws; 1/5 of cases http with unary calls only) plus one call and one subscription on a second client that is never touched; every call is assigned none | cancelled-before-issue | cancelled-while-running | cancel-racing-release | cancelled-after-subscription-established; delays at cancel.send / call.dispatch / write.locked; optionally a notification whose handler keeps running was sent on the same connection before the cancellations. Grid: every strict non-empty subset of 4 calls cancelled, per instant. Non-trivial = >=2 concurrent calls with a strict, non-empty subset cancelled; distinct by descriptor hash"
 
 func TestC06(t *testing.T) {
 	rec := NewRec("C06", c06Rule)
 	defer rec.Finish(t)
 	rec.EnableJournal()
-	rec.RequireClass("churn", "cancel_pending", "cancel_before", "cancel_running", "cancel_race", "cancel_established", "cancel_none", "tr_http", "tr_ws", "with_delays")
+	rec.RequireClass("behind_slow_notification", "churn", "cancel_pending", "cancel_before", "cancel_running", "cancel_race", "cancel_established", "cancel_none", "tr_http", "tr_ws", "with_delays")
 	run := func(ft failer, c c06Case) {
 		nt, cl := c06NT(c)
 		rec.Run(ft, c, nt, cl, func() *Violation {
@@ -331,8 +342,9 @@ func TestC06(t *testing.T) {
 				}
 				calls = append(calls, cc)
 			}
-			run(t, c06Case{Transport: "ws", Calls: calls})
+			run(t, c06Case{Transport: "ws", Calls: calls, SlowNotify: mask%2 == 1})
 		}
+		run(t, c06Case{Transport: "ws", SlowNotify: true, Calls: []c06Call{{Kind: "call", Cancel: "running"}, {Kind: "call", Cancel: "none"}, {Kind: "sub", Cancel: "established"}, {Kind: "call", Cancel: "race"}}})
 		run(t, c06Case{Transport: "ws", Calls: []c06Call{{Kind: "sub", Cancel: "pending"}, {Kind: "sub", Cancel: "none"}, {Kind: "call", Cancel: "none"}, {Kind: "sub", Cancel: "before"}}})
 		// subscription churn: open / end / open / end sequences (see runC06Churn)
 		for _, ops := range [][]c06Op{
@@ -365,6 +377,7 @@ func TestC06(t *testing.T) {
 		if rapid.IntRange(0, 4).Draw(rt, "http") == 0 {
 			c.Transport = "http"
 		}
+		c.SlowNotify = c.Transport == "ws" && rapid.IntRange(0, 3).Draw(rt, "slownotify") == 0
 		n := rapid.IntRange(1, 6).Draw(rt, "ncalls")
 		for i := 0; i < n; i++ {
 			c.Calls = append(c.Calls, c06Call{Kind: "call", Cancel: rapid.SampledFrom([]string{"none", "none", "before", "running", "running", "race"}).Draw(rt, fmt.Sprintf("cancel%d", i))})
